@@ -296,7 +296,7 @@ def h_float_text(mi: int, xi: int, vl: int) -> bool:
 
 
 FIRST = ["q", 1.5, 7, {"a": 1}, [1, 2], gfapy.ByteArray([1])]
-HOSTS = ["S\ta\t*", "H\tVN:Z:1.0", "L\ta\t+\tb\t-\t*"]
+RD_HOSTS = ["S\ta\t*", "H\tVN:Z:1.0", "L\ta\t+\tb\t-\t*"]
 
 def h_redefine(fi: int, vi: int, hi: int, vl: int) -> bool:
   """
@@ -309,7 +309,7 @@ def h_redefine(fi: int, vi: int, hi: int, vl: int) -> bool:
   v, dt = VALUES[vp.concretize(vi, 0, NV - 1)]
   if dt is None: return True
   level = vp.concretize(vl, 0, 3)
-  line = gfapy.Line(HOSTS[vp.concretize(hi, 0, 2)], vlevel=level)
+  line = gfapy.Line(RD_HOSTS[vp.concretize(hi, 0, 2)], vlevel=level)
   vp.reached("rd", fi, vi, hi, level)
   line.set("xx", first)
   line.delete("xx")          # (set(tag, None) keeps a declared datatype, like set_datatype before set: not claimed)
